@@ -16,6 +16,7 @@ func c05One(c *core.Ctx, cs srcCase) {
 	setBlock(&cs)
 	v := parseVer(cs.Ver)
 	res := drive.Parse(cs.Src, v, true)
+	disturb()
 	if !res.Clean() {
 		c.Stat("not_error_free(not judged)", 1)
 		return
